@@ -2,6 +2,11 @@ SPECIFICATION TraceSpec
 CONSTANTS
   K = 3
   Deviations = {}
+  KindSet = {"ok", "invalid", "declared", "undeclared", "plain"}
+  CodecSet = {"json", "xml", "gob", "text", "unsup"}
+  BodySet = {"object", "string", "bytes", "list"}
+  SerialSet = {TRUE, FALSE}
 CONSTRAINT HWM
+INVARIANTS NoConflict
 POSTCONDITION TraceAccepted
 CHECK_DEADLOCK FALSE
